@@ -49,7 +49,7 @@ Theorem C17_helpers_total : forall s : text,
   (exists r, general_post s = Ok r) /\
   (s <> [] -> exists r, single_call_post s = Ok r) /\
   (s = [] -> single_call_post s = Err TypeError) /\
-  (forall parse vw fid, exists o, multi_step_post parse vw fid s = Some o).
+  (forall parse vw fid maxl, exists o, multi_step_post parse vw fid maxl s = Some o).
 Proof. exact helpers_total. Qed.
 Print Assumptions C17_helpers_total.
 
@@ -98,18 +98,25 @@ Print Assumptions C17_contained.
 (* _process_start_flow's parse + assert cannot raise on what the CURRENT generation accepts
    (validate_wrapped is the value read from the source), and the accepted body is not blank *)
 Theorem C17_runtime_parse : forall parse flow_id result o,
-  multi_step_post parse validate_wrapped flow_id result = Some o ->
+  multi_step_post parse validate_wrapped flow_id c_max_multi_step_lines result = Some o ->
   match o with
   | GeneralResponse => True
   | StartFlow ls => process_start_flow_parse parse flow_id (join_nl ls) = Ok tt /\ blank (join_nl ls) = false
   end.
-Proof. exact multi_step_safe. Qed.
+Proof. exact (fun parse flow_id => multi_step_safe parse flow_id c_max_multi_step_lines). Qed.
 Print Assumptions C17_runtime_parse.
+
+(* the number of parser runs spent on one completion is bounded by the cap read from the source,
+   whatever the length of the completion (fuel of the loop = number of capped lines) *)
+Theorem C17_shrink_work_bounded : forall result,
+  (List.length (cap_lines c_max_multi_step_lines (split_nl result)) <= c_max_multi_step_lines)%nat.
+Proof. exact (fun result => multi_step_work_bounded c_max_multi_step_lines result (fun H => O_S _ (eq_sym H))). Qed.
+Print Assumptions C17_shrink_work_bounded.
 
 (* ... whereas validating the raw body (the code before the repair) protects nothing *)
 Theorem C17_runtime_parse_unguarded_refuted :
   exists parse flow_id result ls,
-    multi_step_post parse false flow_id result = Some (StartFlow ls) /\
+    multi_step_post parse false flow_id 0 result = Some (StartFlow ls) /\
     exists e, process_start_flow_parse parse flow_id (join_nl ls) = Err e.
 Proof. exact runtime_parse_unguarded_refuted. Qed.
 Print Assumptions C17_runtime_parse_unguarded_refuted.
